@@ -85,7 +85,7 @@ theorem threadStepCopy_ok (tmpls : List (Tmpl κ)) (orig : List (Vars κ)) (th :
         simp only
         refine ⟨hc, hs' _ rfl rfl, ?_⟩
         simp only [PhaseOk]
-        rw [List.length_append, List.length_singleton, List.take_succ, hget]
+        rw [List.length_append, List.length_singleton, List.take_add_one, hget]
         simp [← hp]
       | none =>
         simp only
